@@ -195,6 +195,8 @@ inductive Out where
   | mut (r : Res)
   | hit (h : Option RouteId)
   | url (u : UrlRes)
+  /-- an unexpected panic (never produced by the model; the oracle rejects it) -/
+  | crash
   deriving DecidableEq, Repr
 
 structure St where
@@ -242,7 +244,7 @@ def wakeW (s : St) : St :=
   { s with status := s.status.map fun st => if st = .blockedW then .finished else st }
 
 /-- the call `r.Freeze()` by goroutine `i` -/
-def callFreeze (kinds : List Kind) (s : St) (i : Nat) (k : Kind) : St :=
+def callFreeze (s : St) (i : Nat) (k : Kind) : St :=
   match s.core.fpc with
   | .done => setStatus s i (afterFreeze k)
   | .idle => setStatus { s with core := s.core.step .enterFreeze } i .inFreeze
@@ -252,8 +254,8 @@ def callFreeze (kinds : List Kind) (s : St) (i : Nat) (k : Kind) : St :=
 def stepActor (kinds : List Kind) (s : St) (i : Nat) (k : Kind) (st : Status) : St × Out :=
   match st, k with
   | .start, .request _ _ => (setStatus s i .atEntry, .none)
-  | .atEntry, .request _ _ => (callFreeze kinds s i k, .none)
-  | .start, .freeze => (callFreeze kinds s i k, .none)
+  | .atEntry, .request _ _ => (callFreeze s i k, .none)
+  | .start, .freeze => (callFreeze s i k, .none)
   | .start, .warmup =>
     (match s.core.wpc with
      | .done => setStatus s i .finished
